@@ -160,7 +160,12 @@ impl<T: Copy> ReadStream<T> {
 
     #[must_use]
     pub fn wait_for_read(&self, need: usize) -> bool {
-        self.circ.wait_for_read(need) < need && Arc::strong_count(&self.circ) == 1
+        // Check if the writer is gone *before* checking how much data there
+        // is. Once the writer is gone the amount of data can't grow, but if
+        // checked in the other order the writer could commit its last samples
+        // and go away between the two checks.
+        let closed = Arc::strong_count(&self.circ) == 1;
+        self.circ.wait_for_read(need) < need && closed
     }
 
     /// Return true if there is nothing more ever to read from the stream.
@@ -317,11 +322,11 @@ impl<T> NCReadStream<T> {
     /// Return true if there is nothing more ever to read from the stream.
     #[must_use]
     pub fn eof(&self) -> bool {
-        if !self.q.0.lock().unwrap().is_empty() {
-            false
-        } else {
-            Arc::strong_count(&self.q) == 1
-        }
+        // Check if the writer is gone *before* checking for emptiness.
+        // Otherwise the writer could push its last packet and go away between
+        // the two checks.
+        let closed = Arc::strong_count(&self.q) == 1;
+        closed && self.q.0.lock().unwrap().is_empty()
     }
 }
 
